@@ -2,6 +2,8 @@ mod alloc;
 mod api;
 mod fam_comm;
 mod fam_shrink;
+mod fam_spawn;
+mod fam_status;
 mod interpose;
 mod kernel;
 mod plan;
